@@ -157,7 +157,7 @@ class Renderer:
             (attrs.append(self.kw("optional")) if pl == "decl" else stmt_attrs.append((self.kw("optional"), pl, None)))
         access = d.get("access")
         if access:
-            pl = place("access")
+            pl = d.get("access_place") or place("access")
             (attrs.append(self.kw(access)) if pl == "decl" else stmt_attrs.append((self.kw(access), pl, None)))
         param_stmt = False
         if d.get("parameter"):
@@ -385,7 +385,7 @@ class Renderer:
         if attrs:
             txt += ", " + ", ".join(attrs) + " :: "
         else:
-            txt += " :: " if self.flag("dcolon", 3, 4) else " "
+            txt += " :: " if b.get("target") or self.flag("dcolon", 3, 4) else " "
         txt += self.idn(b["name"])
         if b.get("target"):
             txt += " => " + self.idn(b["target"])
